@@ -1,8 +1,8 @@
 (** Extraction of the executable model to OCaml. Only [ExtrOcamlBasic] is used: [bool],
     [option], [list], [prod], [unit], [sumbool] map to OCaml's; [nat], [positive], [N], [Z]
     stay the extracted inductive types. No [Extract Constant], no further [Extract Inductive]. *)
-From Ark Require Import Model.Base Model.Run Model.Codec Model.DumpLoad Model.Util Proofs.InvRun.
+From Ark Require Import Model.Base Model.Run Model.Codec Model.DumpLoad Model.DumpLoadW Model.Util Proofs.InvRun.
 Require Extraction.
 Require Import ExtrOcamlBasic.
 Extraction Language OCaml.
-Extraction "arkmodel.ml" run_script inv_script marshal_bin unmarshal_bin marshal_json unmarshal_json capPow2N dumpload_case.
+Extraction "arkmodel.ml" run_script inv_script marshal_bin unmarshal_bin marshal_json unmarshal_json capPow2N dumpload_case dumpload_world.
